@@ -259,6 +259,7 @@ inductive BracketH : HName → HName → Attrs → Prop
   | row (a) : BracketH .s_table_table_row .e_table_table_row a
   | cell (a) : BracketH .s_table_table_cell .e_table_table_cell a
   | frame (a) : BracketH .s_draw_frame .e_draw_frame a
+  | shape (a) : BracketH .s_custom_shape .e_custom_shape a
   | textbox (a) : BracketH .s_draw_textbox .e_draw_textbox a
   | page (a) : BracketH .s_draw_page .e_draw_page a
   | link (a v) : a.lookup kHref = some v → BracketH .s_text_a .e_text_a a
@@ -270,6 +271,7 @@ inductive LeafH : HName → Attrs → Prop
   | s (a n) : pyInt ((a.lookup kC).getD sOne) = some n → LeafH .s_text_s a
   | tab (a) : LeafH .s_text_tab a
   | br (a) : LeafH .s_text_line_break a
+  | drawshape (a) : LeafH .s_draw_shape a
   | bookmark (a v) : a.lookup kName = some v → LeafH .s_text_bookmark a
   | image (a v) : a.lookup kHref = some v → LeafH .s_draw_image a
   | column (a n) : pyInt ((a.lookup kColsRepeated).getD sOne) = some n → LeafH .s_table_table_column a
@@ -337,6 +339,12 @@ theorem bracket_spec {hs he : HName} {a : Attrs} (hb : BracketH hs he a) (cfg : 
       · exact opens_pure (by simp [runH, hc]; rfl) (by simp) (by same_tac) (by bal_tac)
       · exact opens_pure (by simp [runH, hc]; rfl) (by simp) (by same_tac) (by bal_tac)
     · intro st2 pe2 pc2 _ hd; exact closes_c st2 _ true pe2 pc2 hd
+  | shape =>
+    refine ⟨nDiv, ?_, ?_⟩
+    · by_cases hc : cfg.css = true
+      · exact opens_pure (by simp [runH, hc]; rfl) (by simp) (by same_tac) (by bal_tac)
+      · exact opens_pure (by simp [runH, hc]; rfl) (by simp) (by same_tac) (by bal_tac)
+    · intro st2 pe2 pc2 _ hd; exact closes_c st2 _ true pe2 pc2 hd
   | textbox =>
     refine ⟨nDiv, opens_pure rfl (by simp) (by same_tac) (by bal_tac), ?_⟩
     intro st2 pe2 pc2 _ hd; exact closes_c st2 _ true pe2 pc2 hd
@@ -387,6 +395,7 @@ theorem leaf_spec {hs : HName} {a : Attrs} (hl : LeafH hs a) (cfg : Cfg) (ctx : 
     intro s S h; simp [bal_append, h, emitN_out]; exact bal_replicate_neutral rfl n S
   | tab => exact ⟨_, rfl, by simp, by same_tac, by bal_tac⟩
   | br => exact ⟨_, rfl, by simp, by same_tac, by bal_tac⟩
+  | drawshape => exact ⟨_, rfl, by simp, by same_tac, by bal_tac⟩
   | bookmark _ v h =>
     refine ⟨purgedata (closePure nSpan false (opentag nSpan [(aId, (getAnchor v st).1)] false (writedata (getAnchor v st).2))), ?_, by simp, by same_tac, by bal_tac⟩
     simp [runH, h, closetag_ok, Except.map]
